@@ -193,9 +193,9 @@ theorem WInv_step {w : World} (h : WInv w) (e : Event) : WInv (step w e) := by
     cases hE : evConnected w k with
     | none => exact h
     | some p => exact WInv_evConnected h hE
-  | connFail k =>
+  | connFail k e =>
     simp only [step]
-    cases hE : evConnFail w k with
+    cases hE : evConnFail w k e with
     | none => exact h
     | some w' => exact WInv_quiet h (evConnFail_quiet hE)
   | data i d => exact WInv_evData h i d
@@ -263,9 +263,9 @@ theorem step_cfg (w : World) (e : Event) : (step w e).cfg = w.cfg := by
     cases hE : evConnected w k with
     | none => rfl
     | some p => exact evConnected_cfg hE
-  | connFail k =>
+  | connFail k e =>
     simp only [step]
-    cases hE : evConnFail w k with
+    cases hE : evConnFail w k e with
     | none => rfl
     | some w' => exact (evConnFail_quiet hE).cfg
   | data i d =>
